@@ -819,6 +819,17 @@ impl FixtureDatabase {
         None
     }
 
+    /// The text behind the `def` keyword (after an optional `async`) of a function header
+    /// line, whatever white space separates the keywords and the name.
+    fn after_def_keyword(line: &str) -> Option<&str> {
+        fn after_kw<'a>(kw: &str, s: &'a str) -> Option<&'a str> {
+            let rest = s.strip_prefix(kw)?;
+            rest.starts_with(char::is_whitespace)
+                .then(|| rest.trim_start())
+        }
+        after_kw("def", after_kw("async", line).unwrap_or(line))
+    }
+
     /// Text-based fallback for completion context when the AST parser fails.
     ///
     /// Checks for two kinds of contexts:
@@ -866,7 +877,7 @@ impl FixtureDatabase {
         let mut i = cursor_idx;
         loop {
             let trimmed = lines[i].trim();
-            if trimmed.starts_with("def ") || trimmed.starts_with("async def ") {
+            if Self::after_def_keyword(trimmed).is_some() {
                 def_line_idx = Some(i);
                 break;
             }
@@ -880,12 +891,7 @@ impl FixtureDatabase {
         let def_line = lines[def_line_idx].trim();
 
         // Extract function name
-        let name_start = if def_line.starts_with("async def ") {
-            "async def ".len()
-        } else {
-            "def ".len()
-        };
-        let remaining = &def_line[name_start..];
+        let remaining = Self::after_def_keyword(def_line)?;
         let func_name: String = remaining
             .chars()
             .take_while(|c| c.is_alphanumeric() || *c == '_')
